@@ -34,7 +34,8 @@ def check_C14(tier, seed):
     A6 = ["A", "B", "C", "D", "A2", "B2"]
     if tier == "quick":
         models = [ds_model("pairs", 1, 3, A4), ds_model("hist", 2, 3, A4, ["A", "B"], ["B", "C"]),
-                  ds_model("hist", 2, 3, A5, ["C", "A2"], ["A"]), ds_model("hist", 2, 3, A5, ["A", "B", "C"], ["A3"]),
+                  ds_model("hist", 2, 3, ["A", "C", "A2", "A3"], ["C"], ["A3"]),
+                  ds_model("hist", 4, 3, A5, ["A", "B", "C"], ["A3"], simulate="num=40"),
                   ds_model("hist", 6, 3, A6, ["B", "A"], ["C", "D", "A2"], simulate="num=40")]
     else:
         models = [ds_model("pairs", 1, 3, A6), ds_model("pairs", 1, 4, A4), ds_model("hist", 2, 3, A5, ["A", "B"], ["B", "C"]),
@@ -63,12 +64,34 @@ def check_C14(tier, seed):
         for s in v["hist"]:
             k = s["op"] + ("/inplace" if s["inplace"] else "") + ("/error" if s["outcome"] == "error" else "")
             ops[k] = ops.get(k, 0) + 1
+    # ---- direction B: recorded programs validated by TLC (spec/trace/Trace_DimSets.tla)
+    from . import trace_dimsets as td
+    ntraces, nsteps = (60, 30) if tier == "quick" else (2000, 40)
+    batch = td.record_batch(ntraces, nsteps, seed)
+    acc, rej, res = td.validate_batch(batch, workers=4 if tier == "quick" else 8)
+    out.states += res.distinct
+    out.transitions += res.generated
+    out.models.append({"model": "Trace_DimSets", "states": res.distinct, "generated": res.generated, "traces": ntraces,
+                       "accepted": len(acc), "wall_s": round(res.wall, 2)})
+    tbad = []
+    for tid, (pos, clause) in rej.items():
+        tr = batch["traces"][tid - 1]
+        ev = tr["events"][pos - 1]
+        tbad.append(({"alphabet": batch["alphabet"], "trace": {"init": tr["init"], "events": tr["events"][:pos]}},
+                     [f"recorded program rejected by the specification at event {pos} ({ev['op']}, logged outcome {ev['outcome']}): {clause}"]))
+    out.judge(tbad, "dimsets_trace", lambda v, p: {"engine": "dimsets_trace", "op": v["trace"]["events"][-1]["op"], "clause": p[0].split(": ")[-1][:40]})
+    out.traces_validated += ntraces
+    out.extra["recorded_programs_validated_by_TLC"] = ntraces
+    out.extra["recorded_events"] = sum(len(t["events"]) for t in batch["traces"])
     out.exhaustive = True
     out.assumptions += [
+        "direction B: seeded random programs of 30 (thorough 40) calls over four registers and an alphabet of ten dimensions on seven letters "
+        "(sets of up to seven dimensions), every call logged at its return with what every real object reports about itself; TLC "
+        "(Trace_DimSets.tla) accepts a trace iff the ordered-list model explains every event",
         "alphabet of 4 (thorough: 6) dimensions including two that clash by letter with others; sets of up to 3 (4) dimensions",
         "membership is by letter and the left operand's dimension is kept (the statement speaks of uniquely LETTERED dimensions)",
         "not generated (left open by the statement): replace by a dimension with the same letter as the replaced one, "
-        "get_subset with a repeated key, expand_by with several dimensions",
+        "get_subset with a repeated key",
         "after every step every register is compared with the ordered-list model and all lookup forms "
         "(name, letter, position, in, index, size, shape, total_size, len, iteration) are checked against that order",
     ]
